@@ -114,6 +114,20 @@ def cases(tier, rng):
                 out.append(ctx.replace("□", o + body + c))
                 out.append(ctx.replace("□", o + body))
             out.append(o + body + "|")
+    # numeric and named function parameters in every written form (leading zeros, several digits, mixed)
+    for par in ["0", "1", "2", "00", "01", "02", "007", "010", "10", "09", "99", "a", "ab", "*", "_a", "1:2", "01:a", "a:02", "0:0",
+                "2:b:03", "a:b:c"]:
+        for ctx in ("@f:□|+;", "(@f:□|W;)", "@h:x:□|+;", "λ@f:□|1;;", "@f:□|1;@f;", "@f:□|", "[1|@f:□|n;]"):
+            out.append(ctx.replace("□", par))
+    # DATA whose text is a syntax-significant character, in every literal kind, at every position of the C03 contexts:
+    # the program must still be accepted and compile
+    from . import c03
+    d3 = c03.data()
+    for ctx in d3["contexts"]:
+        for kind in c03.KINDS:
+            n = 2 if kind == "twochar" else 1
+            for ch in d3["payload_alphabet"]:
+                out.append(ctx.replace(d3["hole"], c03.literal(kind, ch * n)))
     # NAMES written with any plain character of the code page (the parser / transpiler keep identifier characters)
     from vyxal.encoding import codepage
     for ch in codepage:
